@@ -140,27 +140,54 @@ def run(ctx):  # noqa: C901, PLR0912, PLR0915
 
     # ------------------------------------------------------------------ R2
     sep = repo.func('sdc11073.provider.porttypes.stateeventserviceimpl._separate_states_by_source_mds')
-    fors = [n for n in walk_no_nested(sep.node) if isinstance(n, ast.For)]
-    ok = len(fors) == 1 and unparse(fors[0].iter) == sep.node.args.args[0].arg and len(fors[0].body) == 1 and \
-        unparse(fors[0].body[0]).replace(' ', '') == f'lookup[{fors[0].target.id}.source_mds].append({fors[0].target.id})'
-    raises = any(isinstance(n, ast.Raise) for n in walk_no_nested(sep.node)) and 'None in lookup' in xsrc(sep)
+    # structural, independent of the names of locals and of the dict idiom (defaultdict / setdefault / plain dict):
+    # one loop over the parameter; in it, unconditionally, <D>[x.source_mds] gets x appended; a raise under `None in <D>`;
+    # <D> is what is returned
+    gsep = cfg_of(sep)
+    fors = [n for n in walk_no_nested(sep.node) if isinstance(n, ast.For) and isinstance(n.target, ast.Name)]
+    part = []
+    for n, c in gsep.nodes_calling('append'):
+        recv = c.func.value
+        dname = key = None
+        if isinstance(recv, ast.Subscript) and isinstance(recv.value, ast.Name):
+            dname, key = recv.value.id, recv.slice
+        elif isinstance(recv, ast.Call) and call_name(recv) == 'setdefault' and isinstance(recv.func.value, ast.Name) and recv.args:
+            dname, key = recv.func.value.id, recv.args[0]
+        if dname is None or len(c.args) != 1 or not isinstance(c.args[0], ast.Name):
+            continue
+        x = c.args[0].id
+        loop = [lp for lp in n.loops if isinstance(lp, ast.For) and isinstance(lp.target, ast.Name) and lp.target.id == x]
+        if isinstance(key, ast.Attribute) and key.attr == 'source_mds' and unparse(key.value) == x and loop and \
+                gsep.symbolic_text(n, loop[-1].iter) == '$0' and not list(gsep.facts_at(n)):
+            part.append(dname)
+    rets = {unparse(n.stmt.value) for n in gsep.nodes if n.kind == 'return' and n.stmt.value is not None}
+    ok = len(fors) == 1 and len(part) == 1 and rets == {part[0]}
+    raises = bool(part) and any(n.kind == 'raisestmt' and (f'None in {part[0]}', True) in gsep.facts_at(n) for n in gsep.nodes)
     ctx.ob('C04.R2', 'partition by source MDS', ok and raises,
            '_separate_states_by_source_mds appends every state unconditionally to the list of its source MDS and refuses '
            'states without one', fi=sep)
     for fname in ('fill_episodic_report_body', 'fill_periodic_report_body'):
         fi = repo.func(f'sdc11073.provider.porttypes.stateeventserviceimpl.{fname}')
+        gf = cfg_of(fi)
         ok = True
         n_loop = 0
-        for lp in [n for n in ast.walk(fi.node) if isinstance(n, ast.For) and 'lookup.items()' in unparse(n.iter)]:
+        for hn in [n for n in gf.nodes if n.kind == 'for']:
+            lp = hn.stmt
+            it = lp.iter
+            if not (isinstance(it, ast.Call) and call_name(it) == 'items' and
+                    '_separate_states_by_source_mds(' in gf.symbolic_text(hn, it.func.value)):
+                continue
             n_loop += 1
             tgt = lp.target
             if not (isinstance(tgt, ast.Tuple) and len(tgt.elts) == 2):
                 ok = False
                 continue
             mds_v, st_v = unparse(tgt.elts[0]), unparse(tgt.elts[1])
+            parts = [s.targets[0].id for s in lp.body if isinstance(s, ast.Assign) and isinstance(s.targets[0], ast.Name)
+                     and isinstance(s.value, ast.Call) and call_name(s.value) == 'add_report_part']
             body = ' ; '.join(unparse(s) for s in lp.body)
-            ok = ok and f'report_part.SourceMds = {mds_v}' in body and f'report_part.values_list.extend({st_v})' in body \
-                and 'report.add_report_part()' in body and not any(isinstance(s, ast.If) for s in lp.body)
+            ok = ok and len(parts) == 1 and f'{parts[0]}.SourceMds = {mds_v}' in body and \
+                f'{parts[0]}.values_list.extend({st_v})' in body and not any(isinstance(s, ast.If) for s in lp.body)
         ctx.ob('C04.R2', f'{fname}', ok and n_loop == 1,
                f'{fname}: one report part per source MDS, stamped with that MDS and filled with exactly its states', fi=fi)
     dm = repo.func('sdc11073.provider.porttypes.descriptioneventserviceimpl.DescriptionEventService.'
